@@ -367,4 +367,65 @@ theorem hydroPsd_bulk (f fc D g R rhoS rhoB : ℝ) (hf : 0 ≤ f) (hnu : 0 < fre
   simp only [hydroPsd, complexDrag_bulk f g rhoS R hf hnu, RealLike.pi]
   ring_nf
 
+/-! ### coupling_correction_2d: the 2-D decomposition for one bead pair -/
+
+theorem coupling2d_real_x (dx dy ca cp : ℝ) (h : dx ≠ 0 ∨ dy ≠ 0) :
+    coupling2d dx dy ca cp false = ca * (dx ^ 2 / (dx ^ 2 + dy ^ 2)) + cp * (dy ^ 2 / (dx ^ 2 + dy ^ 2)) := by
+  have hpos : 0 < dx * dx + dy * dy := by
+    rcases h with h | h
+    · have := mul_self_pos.mpr h; nlinarith [mul_self_nonneg dy]
+    · have := mul_self_pos.mpr h; nlinarith [mul_self_nonneg dx]
+  have hs : Real.sqrt (dx * dx + dy * dy) ≠ 0 := (Real.sqrt_pos.mpr hpos).ne'
+  have hsq : Real.sqrt (dx * dx + dy * dy) ^ 2 = dx * dx + dy * dy := Real.sq_sqrt hpos.le
+  simp only [coupling2d, RealLike.sqrt]
+  norm_num
+  generalize hd : Real.sqrt (dx * dx + dy * dy) = d at hs hsq
+  have hd2 : dx ^ 2 + dy ^ 2 = d ^ 2 := by rw [hsq]; ring
+  rw [hd2]
+  field_simp
+
+theorem coupling2d_real_y (dx dy ca cp : ℝ) (h : dx ≠ 0 ∨ dy ≠ 0) :
+    coupling2d dx dy ca cp true = ca * (dy ^ 2 / (dx ^ 2 + dy ^ 2)) + cp * (dx ^ 2 / (dx ^ 2 + dy ^ 2)) := by
+  have hpos : 0 < dx * dx + dy * dy := by
+    rcases h with h | h
+    · have := mul_self_pos.mpr h; nlinarith [mul_self_nonneg dy]
+    · have := mul_self_pos.mpr h; nlinarith [mul_self_nonneg dx]
+  have hs : Real.sqrt (dx * dx + dy * dy) ≠ 0 := (Real.sqrt_pos.mpr hpos).ne'
+  have hsq : Real.sqrt (dx * dx + dy * dy) ^ 2 = dx * dx + dy * dy := Real.sq_sqrt hpos.le
+  simp only [coupling2d, RealLike.sqrt]
+  norm_num
+  generalize hd : Real.sqrt (dx * dx + dy * dy) = d at hs hsq
+  have hd2 : dx ^ 2 + dy ^ 2 = d ^ 2 := by rw [hsq]; ring
+  rw [hd2]
+  field_simp
+
+/-- the weight `cos² θ = dx² / (dx² + dy²)` of a pair lies in `[0, 1]` and `sin² θ` is its complement -/
+theorem coupling_weights (dx dy : ℝ) (h : dx ≠ 0 ∨ dy ≠ 0) :
+    0 ≤ dx ^ 2 / (dx ^ 2 + dy ^ 2) ∧ dx ^ 2 / (dx ^ 2 + dy ^ 2) ≤ 1 ∧
+      dy ^ 2 / (dx ^ 2 + dy ^ 2) = 1 - dx ^ 2 / (dx ^ 2 + dy ^ 2) := by
+  have hpos : 0 < dx ^ 2 + dy ^ 2 := by
+    rcases h with h | h
+    · have := pow_pos (abs_pos.mpr h) 2; rw [sq_abs] at this; nlinarith [sq_nonneg dy]
+    · have := pow_pos (abs_pos.mpr h) 2; rw [sq_abs] at this; nlinarith [sq_nonneg dx]
+  refine ⟨div_nonneg (sq_nonneg _) hpos.le, ?_, ?_⟩
+  · rw [div_le_one hpos]; nlinarith [sq_nonneg dy]
+  · field_simp; ring
+
+/-- a weighted mean of two numbers of `(0, 1)` lies in `(0, 1)` -/
+theorem convex_unit (ca cp w : ℝ) (hw0 : 0 ≤ w) (hw1 : w ≤ 1) (ha : 0 < ca ∧ ca < 1) (hp : 0 < cp ∧ cp < 1) :
+    0 < ca * w + cp * (1 - w) ∧ ca * w + cp * (1 - w) < 1 := by
+  constructor
+  · nlinarith [mul_nonneg hw0 ha.1.le, mul_nonneg (sub_nonneg.mpr hw1) hp.1.le]
+  · nlinarith [mul_nonneg hw0 (sub_nonneg.mpr ha.2.le), mul_nonneg (sub_nonneg.mpr hw1) (sub_nonneg.mpr hp.2.le)]
+
+/-- a weighted mean lies between the two numbers -/
+theorem convex_between (ca cp w : ℝ) (hw0 : 0 ≤ w) (hw1 : w ≤ 1) :
+    min ca cp ≤ ca * w + cp * (1 - w) ∧ ca * w + cp * (1 - w) ≤ max ca cp := by
+  have h1 := min_le_left ca cp; have h2 := min_le_right ca cp
+  have h3 := le_max_left ca cp; have h4 := le_max_right ca cp
+  have hw1' : 0 ≤ 1 - w := sub_nonneg.mpr hw1
+  constructor
+  · nlinarith [mul_le_mul_of_nonneg_right h1 hw0, mul_le_mul_of_nonneg_right h2 hw1']
+  · nlinarith [mul_le_mul_of_nonneg_right h3 hw0, mul_le_mul_of_nonneg_right h4 hw1']
+
 end Verif.C20
